@@ -5,6 +5,7 @@ import (
 	"go/ast"
 	"go/token"
 	"go/types"
+	"strings"
 )
 
 // C15, ordering clause.  Values are instants (time.Time); the clause's structural
@@ -324,4 +325,73 @@ func returnsOf(body *ast.BlockStmt) []*ast.ReturnStmt {
 		return true
 	})
 	return out
+}
+
+func init() {
+	register(&Rule{ID: "TIME.strict-parse", Floor: 2,
+		Doc: "every time.Parse with an RFC 3339 layout in libtime is dominated by a strictness check of the very string it parses (a same-package function returning error, whose error is returned): time.Parse with these layouts is lenient by design (golang/go#54580) — it accepts a comma fraction separator, a one-digit hour, offsets such as +24:60 and silently drops a tenth fractional digit — so without the check the parser accepts malformed timestamps and format∘parse can produce a string the parser refuses",
+		Run: func(c *Ctx) []Obligation {
+			var obs []Obligation
+			for _, u := range c.Funcs(func(p string) bool { return rel(p) == "lisp/lisplib/libtime" }) {
+				info := u.Pkg.TypesInfo
+				fc := c.cfgOf(u, nil)
+				ord := &ordinal{}
+				for _, b := range fc.G.Blocks {
+					if !fc.Live(b) {
+						continue
+					}
+					for _, n := range b.Nodes {
+						for _, ce := range callsIn(n, false) {
+							if !stdFuncCalled(info, ce, "time", "Parse") || len(ce.Args) != 2 {
+								continue
+							}
+							lay := identObjOrSel(info, ce.Args[0])
+							if lay == nil || lay.Pkg() == nil || lay.Pkg().Path() != "time" || !strings.HasPrefix(lay.Name(), "RFC3339") {
+								continue
+							}
+							construct := ord.next("time.Parse(" + lay.Name() + ")")
+							str := types.ExprString(ce.Args[1])
+							// a dominating check: err := f(str) (same package, returns error) with the non-nil edge returning
+							okCheck := false
+							for _, ob := range fc.G.Blocks {
+								if !fc.Live(ob) || !fc.BlockDominates(ob, b) || ob == b {
+									continue
+								}
+								for _, on := range ob.Nodes {
+									as, ok := on.(*ast.AssignStmt)
+									if !ok || len(as.Lhs) != 1 || len(as.Rhs) != 1 {
+										continue
+									}
+									vc, ok := ast.Unparen(as.Rhs[0]).(*ast.CallExpr)
+									if !ok || len(vc.Args) != 1 || types.ExprString(vc.Args[0]) != str {
+										continue
+									}
+									vf := originOf(Callee(info, vc))
+									if vf == nil || vf.Pkg() != u.Obj.Pkg() {
+										continue
+									}
+									sig := vf.Type().(*types.Signature)
+									if sig.Results().Len() != 1 || sig.Results().At(0).Type().String() != "error" {
+										continue
+									}
+									errObj := identObj(info, as.Lhs[0])
+									// the non-nil edge returns
+									for _, e := range fc.nilEdges(errObj, false) {
+										if fc.edgeReturns(e, nil) && fc.BlockDominates(e.B, b) {
+											okCheck = true
+										}
+									}
+								}
+							}
+							if okCheck {
+								obs = append(obs, mkOb(c, "TIME.strict-parse", u, construct, ce, Proved, "dominated by a strictness check of `"+str+"` whose error is returned", true))
+							} else {
+								obs = append(obs, mkOb(c, "TIME.strict-parse", u, construct, ce, Violated, "time.Parse with an RFC 3339 layout is lenient and nothing stricter looked at `"+str+"` first: \"2000-01-01T1:02:03Z\", \"...00,5Z\" and \"...+24:60\" are accepted", true))
+							}
+						}
+					}
+				}
+			}
+			return obs
+		}})
 }
